@@ -13,7 +13,7 @@ From AV Require Import Base.Bytes Base.Outcome Hash.HashModel Tree.Heap Tree.Ops
   Tree.CopyProofsTiny Tree.Frame Tree.CopyProofsReg Tree.CopyProofsFK Tree.CopyProofsDup Tree.CopyProofsRegId.
 From AV Require Import Tree.Serialize Tree.Script2 Tree.CopyProofsIrp Tree.CopyProofsIndep Tree.CopyProofsIndep2
   Tree.CopyProofsTwo Tree.CopyProofsUnique Tree.CopyProofsText Tree.CopyProofsBound Tree.CopyProofsDupText
-  Tree.CopyProofsDupAll.
+  Tree.CopyProofsDupAll Tree.CopyProofsDupSplit.
 Open Scope list_scope.
 Open Scope N_scope.
 
@@ -536,4 +536,42 @@ Theorem C13_duplicate_text :
     ser_heap T tab_el tab_at tab_en float_fmt fuel w' (Some f) (m_root x) indent inline =
     ser_heap T tab_el tab_at tab_en float_fmt fuel w' (Some nf) (w_next w) indent inline.
 Proof. exact duplicate_text_top. Qed.
+
+(* DUPLICATE TEXT, SPLIT (multi-file) MODELS.  As C13_duplicate_text, but the sub-elements below the root may carry own
+   file sets: the files of the model exist and have pairwise different names (create_file rejects a second file of the
+   same name), and every local file set below the root is drawn from the files of the model.  Then for every file f of
+   the original there is a file nf of the copy with the same name (the one the file map of duplicate() gives that name)
+   such that, in the result, the text written for f below the original's root and the text written for nf below the
+   copy's root are the same bytes.  (C13_duplicate_text is the special case of empty local sets, where every pair of
+   files has the same text.)  dup_files is characterised by C13_dup_files_map: every entry of the map names a file of the
+   copy with that name, every file of the original has an entry, existing records persist. *)
+Theorem C13_dup_files_map : forall T c files fm0 w fm w',
+  dup_files T c files fm0 w = Val (OK fm, w') -> FmSpec c w fm0 ->
+  FmSpec c w' fm /\ Persist w w' /\
+  (forall name, assoc_get name fm0 <> None -> assoc_get name fm <> None) /\
+  (forall f fl, In f files -> nth_opt (w_files w) (N.to_nat f) = Some fl -> assoc_get (f_name fl) fm <> None).
+Proof. exact dup_files_map. Qed.
+
+Theorem C13_duplicate_text_split :
+  forall T tab_el tab_at tab_en check_fn float_fmt LATEST root_attrs m w c w' x rn e ed,
+  Core w ->
+  m_duplicate T tab_el tab_en check_fn LATEST root_attrs m w = Val (OK c, w') ->
+  nth_opt (w_models w) (N.to_nat m) = Some x -> w_nodes w (m_root x) = Some rn ->
+  SpecOps.et_new T (SpecOps.autosar_element T) = Val (n_type rn) ->
+  SpecOps.elem T (SpecOps.autosar_element T) = Val ed -> ed_name ed = n_name rn ->
+  n_content rn = [CElem e] ->
+  (forall en, w_nodes w e = Some en -> SpecOps.is_named T (n_type en) = Val false) ->
+  (forall v, (v = LATEST \/ exists f fl, nth_opt (w_files w') (N.to_nat f) = Some fl /\ f_version fl = v) -> AllValidIn T v w e) ->
+  (forall g, In g (m_files x) -> exists gl, nth_opt (w_files w) (N.to_nat g) = Some gl) ->
+  (forall g1 g2 l1 l2, In g1 (m_files x) -> In g2 (m_files x) ->
+     nth_opt (w_files w) (N.to_nat g1) = Some l1 -> nth_opt (w_files w) (N.to_nat g2) = Some l2 ->
+     f_name l1 = f_name l2 -> g1 = g2) ->
+  (forall p pn o on, Sub w (m_root x) p -> w_nodes w p = Some pn -> In (CElem o) (n_content pn) -> w_nodes w o = Some on ->
+     forall g, In g (n_files on) -> In g (m_files x)) ->
+  forall f fl, In f (m_files x) -> nth_opt (w_files w) (N.to_nat f) = Some fl ->
+  exists nf nfl, nth_opt (w_files w') (N.to_nat nf) = Some nfl /\ f_name nfl = f_name fl /\ f_model nfl = c /\
+    forall fuel indent inline,
+      ser_heap T tab_el tab_at tab_en float_fmt fuel w' (Some f) (m_root x) indent inline =
+      ser_heap T tab_el tab_at tab_en float_fmt fuel w' (Some nf) (w_next w) indent inline.
+Proof. exact duplicate_text_split_top. Qed.
 
